@@ -1,7 +1,7 @@
 (* C13 -- A file written at an output placeholder ends up exactly at the declared path. *)
 From Coq Require Import List Ascii String Arith Lia Bool.
 Import ListNotations.
-From SP Require Import Skel Gen Expected Str Encode PathLex Format.
+From SP Require Import Skel Gen Expected ExpectedCones Str Encode PathLex Format.
 From SP Require PathFS PathBridge.
 
 (* T1: the rename of a declared output goes from <temp dir>/<TempPath> to exactly the declared path; remaining files are
@@ -93,6 +93,17 @@ Theorem C13_extra_placeholder_refuted :
   l2s (replace_all PH up (s2l "__parent__x")) = "../x"%string.
 Proof. vm_compute. reflexivity. Qed.
 
+(* T1, call cones: every function of scipipe that the functions above can reach (calls and function values, interface calls
+   resolved to every implementation) is one the models were compared with -- a helper that is new to the cone, or a new call
+   of an old one, changes a list (the lists are regenerated from /repo on every run; ExpectedCones.v holds the accepted ones) *)
+Theorem C13_cone_conforms :
+  strs_eqb cone_FinalizePaths exp_cone_FinalizePaths
+  && strs_eqb cone_Task_finalizePaths exp_cone_Task_finalizePaths
+  && strs_eqb cone_Task_createDirs exp_cone_Task_createDirs
+  && strs_eqb cone_Task_executeCommand exp_cone_Task_executeCommand
+  && strs_eqb cone_Task_ensureAllOutputsExist exp_cone_Task_ensureAllOutputsExist = true.
+Proof. vm_compute. reflexivity. Qed.
+
 Print Assumptions C13_code_conforms.
 Print Assumptions C13_no_parent_in_temp_path.
 Print Assumptions C13_temp_path_relative.
@@ -104,3 +115,4 @@ Print Assumptions C13_temp_path_is_enc.
 Print Assumptions C13_out_lands_example.
 Print Assumptions C13_noncanonical_refuted.
 Print Assumptions C13_extra_placeholder_refuted.
+Print Assumptions C13_cone_conforms.
